@@ -40,6 +40,7 @@ type hCol struct {
 	Kind hKind
 	Type string
 	PK   bool
+	UID  int // identity of the column: assigned by CREATE TABLE / ADD COLUMN, kept by RENAME / MODIFY
 }
 
 // hTable is the model of one table: columns in schema order and rows keyed by the joined
@@ -306,6 +307,9 @@ type hConfig struct {
 	StrPK        bool // allow a second, VARCHAR primary-key column
 	NoTableDDL   bool // never drop / rename tables
 	NoSchema     bool // no schema changes after CREATE TABLE
+	DDLBoost     int  // multiplies the weight of schema / table operations (0 = 1)
+	NoPKIndex    bool // never create a secondary index on a primary-key column
+	PKByName     bool // the primary key of a table is a function of its name (a re-created table has the same key columns) and key columns are never renamed
 }
 
 type hHist struct {
@@ -324,6 +328,7 @@ type hHist struct {
 	nTag    int
 	nBr     int
 	nIdx    int
+	nUID    int
 	step    int
 	// AfterCommit, when set, runs after every generated commit (clean working set).
 	AfterCommit func(h *hHist, ci int)
@@ -402,7 +407,17 @@ func (h *hHist) createTable() {
 	name := rapid.SampledFrom(h.freeTableNames()).Draw(rt, h.label("create.name"))
 	t := &hTable{Rows: map[string][]string{}, Idx: map[string]string{}}
 	t.Cols = append(t.Cols, hCol{Name: "pk", Kind: hkInt, Type: "INT", PK: true})
-	switch rapid.IntRange(0, 3).Draw(rt, h.label("create.pk2")) {
+	pk2 := 0
+	if h.cfg.PKByName {
+		for i, n := range h.cfg.TablePool {
+			if n == name {
+				pk2 = []int{3, 0, 1}[i%3]
+			}
+		}
+	} else {
+		pk2 = rapid.IntRange(0, 3).Draw(rt, h.label("create.pk2"))
+	}
+	switch pk2 {
 	case 0:
 		t.Cols = append(t.Cols, hCol{Name: "k2", Kind: hkInt, Type: "INT", PK: true})
 	case 1:
@@ -420,6 +435,10 @@ func (h *hHist) createTable() {
 		t.Cols = append(t.Cols, hCol{Name: cn, Kind: ty.Kind, Type: ty.Type})
 	}
 	var defs, pks []string
+	for i := range t.Cols {
+		h.nUID++
+		t.Cols[i].UID = h.nUID
+	}
 	for _, c := range t.Cols {
 		d := "`" + c.Name + "` " + c.Type
 		if c.PK {
@@ -586,7 +605,8 @@ func (h *hHist) addColumn() {
 		return
 	}
 	ty := rapid.SampledFrom(h.cfg.Types).Draw(rt, h.label("addc.type"))
-	col := hCol{Name: cn, Kind: ty.Kind, Type: ty.Type}
+	h.nUID++
+	col := hCol{Name: cn, Kind: ty.Kind, Type: ty.Type, UID: h.nUID}
 	def := "`" + cn + "` " + ty.Type
 	fill := vsql.Null
 	if (ty.Kind == hkInt || ty.Kind == hkStr || ty.Kind == hkDec) && rapid.IntRange(0, 2).Draw(rt, h.label("addc.hasdef")) == 0 {
@@ -654,7 +674,7 @@ func (h *hHist) renameColumn() {
 		return
 	}
 	ci := rapid.IntRange(0, len(t.Cols)-1).Draw(h.rt, h.label("renc.col"))
-	if t.Cols[ci].PK && rapid.IntRange(0, 2).Draw(h.rt, h.label("renc.pkok")) != 0 {
+	if t.Cols[ci].PK && (h.cfg.PKByName || rapid.IntRange(0, 2).Draw(h.rt, h.label("renc.pkok")) != 0) {
 		return
 	}
 	from := t.Cols[ci].Name
@@ -712,6 +732,9 @@ func (h *hHist) indexOp() {
 	}
 	var cand []int
 	for i, c := range t.Cols {
+		if c.PK && h.cfg.NoPKIndex {
+			continue
+		}
 		switch c.Kind {
 		case hkInt, hkBig, hkStr, hkDec, hkDate, hkDT:
 			cand = append(cand, i)
@@ -741,17 +764,21 @@ func (h *hHist) edit() {
 		w  int
 		fn func()
 	}
+	b := h.cfg.DDLBoost
+	if b < 1 {
+		b = 1
+	}
 	cs := []choice{{10, h.upsert}, {10, h.upsert}, {5, h.deleteRows}}
 	if len(h.freeTableNames()) > 0 {
 		cs = append(cs, choice{3, h.createTable})
 	}
 	if !h.cfg.NoTableDDL {
-		cs = append(cs, choice{2, h.dropTable}, choice{2, h.renameTable})
+		cs = append(cs, choice{2 * b, h.dropTable}, choice{2 * b, h.renameTable})
 	}
 	if !h.cfg.NoSchema {
-		cs = append(cs, choice{3, h.addColumn}, choice{2, h.dropColumn}, choice{2, h.renameColumn}, choice{2, h.modifyColumn})
+		cs = append(cs, choice{3 * b, h.addColumn}, choice{2 * b, h.dropColumn}, choice{2 * b, h.renameColumn}, choice{2 * b, h.modifyColumn})
 		if h.cfg.Indexes {
-			cs = append(cs, choice{2, h.indexOp})
+			cs = append(cs, choice{2 * b, h.indexOp})
 		}
 	}
 	total := 0
